@@ -650,7 +650,7 @@ class Interp:
             return self.eval(m.assigns[node.id], Frame(None, m))
         if node.id in ("len", "sum", "abs", "float", "int", "isinstance", "max", "min",
                        "dict", "list", "tuple", "zip", "range", "str", "callable", "bool",
-                       "getattr", "hasattr", "set", "sorted", "enumerate", "any", "all", "next"):
+                       "getattr", "hasattr", "set", "sorted", "enumerate", "any", "all", "next", "map", "filter", "reversed", "setattr"):
             return ExtFunc("builtins." + node.id)
         raise Unsupported(f"unbound name {node.id}")
 
@@ -774,6 +774,8 @@ class Interp:
         return self.getattr(base, node.attr, node)
 
     def getattr(self, base, attr, node=None):
+        if isinstance(base, ExtFunc) and base.dotted == "builtins.dict" and attr == "fromkeys":
+            return ExtFunc("builtins.dict_fromkeys")
         if isinstance(base, Obj):
             if attr in base.attrs:
                 return base.attrs[attr]
@@ -1221,6 +1223,52 @@ class Interp:
 
     def x_builtins_zip(self, a, k):
         return list(zip(*a))
+
+    def x_builtins_map(self, a, k):
+        fn, seqs = a[0], [list(x) for x in a[1:]]
+        return [self.call(fn, list(items), {}) for items in zip(*seqs)]
+
+    def x_builtins_filter(self, a, k):
+        fn, seq = a[0], list(a[1])
+        return [x for x in seq if (x if fn is None else self.call(fn, [x], {}))]
+
+    def x_builtins_setattr(self, a, k):
+        obj, name, value = a
+        if isinstance(obj, Obj) and isinstance(name, str):
+            obj.attrs[name] = value
+            return None
+        raise Unsupported(f"setattr on {obj!r}")
+
+    def x_builtins_reversed(self, a, k):
+        return list(reversed(list(a[0])))
+
+    def x_operator_methodcaller(self, a, k):
+        name, rest = a[0], list(a[1:])
+        return PyFunc(lambda obj, _n=name, _r=rest, _k=dict(k): self.call_method(obj, _n, list(_r), dict(_k)), f"methodcaller({name!r})")
+
+    def x_operator_attrgetter(self, a, k):
+        def get(obj, names=tuple(a)):
+            vals = []
+            for dotted in names:
+                v = obj
+                for part in dotted.split("."):
+                    v = self.getattr(v, part)
+                vals.append(v)
+            return vals[0] if len(vals) == 1 else tuple(vals)
+        return PyFunc(get, f"attrgetter{tuple(a)!r}")
+
+    def x_operator_itemgetter(self, a, k):
+        def get(obj, keys=tuple(a)):
+            vals = [obj[k_] for k_ in keys]
+            return vals[0] if len(vals) == 1 else tuple(vals)
+        return PyFunc(get, f"itemgetter{tuple(a)!r}")
+
+    def x_functools_partial(self, a, k):
+        fn, pre, prek = a[0], list(a[1:]), dict(k)
+        return PyFunc(lambda *args, **kw: self.call(fn, pre + list(args), {**prek, **kw}), "partial")
+
+    def x_builtins_dict_fromkeys(self, a, k):
+        return dict.fromkeys(list(a[0]), a[1] if len(a) > 1 else None)
 
     def x_builtins_max(self, a, k):
         vals = a if len(a) > 1 else list(a[0])
